@@ -24,7 +24,8 @@ RULE = ("caption sets of 1-5 captions, 1-4 lines each of 1-80 characters over th
         'A caption text may be repeated inside a set, and the writer object may have written '
         'the same set before. '
         "Words include look-alikes of other formats' markup (&amp; &lt; <i> --> ...), which are "
-        "plain text here; in 'window' mode a caption ends while the next one is being transmitted; the last caption may end 0-34 ms below a full hour of timecode; the set sits at 0 s or around the 1 h / 2 h / 10 h / 24 h / 100 h marks. ")
+        "plain text here; in 'window' mode a caption ends while the next one is being transmitted; the last caption may end 0-34 ms below a full hour of timecode; the set sits at 0 s or around the 1 h / 2 h / 10 h / 24 h / 100 h marks. "
+        ' A twentieth of the sets hold a caption that wraps to exactly 15 rows; a quarter of the captions have a line ending in blanks.')
 ASSUMPTIONS = [
     "a row break after a hyphen is a legitimate line-break opportunity (textwrap semantics)",
     "three frames = 3 * 1001/30000 s; the display instant is the first EOC word of the pair",
@@ -82,6 +83,12 @@ def set_strategy(tier):
             caps.append({"lines": lines, "dur": draw(st.integers(20, 200)),
                          "slack": draw(st.sampled_from([0, 1, 2, 3, 4, 5, 30, 300])),
                          "sub": draw(st.integers(0, 33000))})
+        if draw(st.integers(0, 19)) == 0:
+            # a caption that fills the screen: 3 lines of four 19-letter words and one of three
+            # wrap to exactly 15 rows
+            wl = draw(st.integers(17, 19))
+            big = [" ".join([ch * wl] * 4) for ch in "abc"] + [" ".join(["d" * wl] * 3)]
+            caps[draw(st.integers(0, len(caps) - 1))]["lines"] = draw(st.permutations(big))
         if len(caps) >= 2 and draw(st.integers(0, 3)) == 0:
             caps[-1]["lines"] = list(caps[0]["lines"])      # a repeated caption text
         # where on the clock the set sits: around hour boundaries too (seconds added to all times)
